@@ -247,11 +247,15 @@ class StereoCondensedReactionGraph(StereoMolGraph, CondensedReactionGraph):
         for _atom, stereo_change in self.atom_stereo_changes.items():
             for _change, stereo in stereo_change.items():
                 if stereo is not None:
-                    active_atoms.update(stereo.atoms)
+                    active_atoms.update(
+                        a for a in stereo.atoms if a is not None
+                    )
         for _bond, stereo_change in self.bond_stereo_changes.items():
             for _change, stereo in stereo_change.items():
                 if stereo is not None:
-                    active_atoms.update(stereo.atoms)
+                    active_atoms.update(
+                        a for a in stereo.atoms if a is not None
+                    )
 
         for _ in range(additional_layer):
             for atom in active_atoms.copy():
